@@ -60,6 +60,7 @@ type exCase struct {
 	Journal  int               `json:"journal_steps"`
 	Oracle   []string          `json:"oracle_fail,omitempty"`
 	Skipped  string            `json:"skipped,omitempty"`
+	Toggles  []int             `json:"jp_switch_flipped_at_call_steps,omitempty"` // the host flips EVM.IsExecuteJP just before the n-th executed CALL-family instruction
 	Line     string            `json:"-"`
 }
 
@@ -256,9 +257,21 @@ func runScenarioWith(cs *exCase, w *world, u progen.Universe, code0 []byte, debu
 	}
 	// per-step observations that need the live EVM
 	evmv := reflect.ValueOf(env.EVM).Elem()
+	callSteps := 0
 	rec.OnState = func(e *impl.Event, scope *vm.ScopeContext) {
 		if e.HasErr {
 			return
+		}
+		if len(cs.Toggles) > 0 {
+			if e.Op == 0xf1 || e.Op == 0xf2 || e.Op == 0xf4 || e.Op == 0xfa {
+				for _, k := range cs.Toggles {
+					if k == callSteps {
+						env.EVM.IsExecuteJP = !env.EVM.IsExecuteJP
+					}
+				}
+				callSteps++
+			}
+			e.Create = env.EVM.IsExecuteJP // state events of a toggled run carry the switch position
 		}
 		if n := len(e.Stack); n >= 2 {
 			switch e.Op {
@@ -746,6 +759,28 @@ func cmdExec(args []string) error {
 		}
 		cases = append(cases, cs)
 		sb.WriteString(line + "\n")
+
+		// the same scenario with the host flipping the join-point switch between calls (C05): judged by the oracle only
+		// (the model has one switch position per execution); the case line repeats the unflipped run
+		if cs.JP && cs.Frames >= 2 && rr.Intn(3) == 0 {
+			cs3 := cs
+			cs3.Idx = len(cases)
+			cs3.Oracle = nil
+			cs3.Toggles = []int{rr.Intn(3)}
+			if rr.Bool() {
+				cs3.Toggles = append(cs3.Toggles, cs3.Toggles[0]+1+rr.Intn(2))
+			}
+			run3 := runScenario(&cs3, w, u, code0, true)
+			if run3.pan != "" {
+				cs3.Oracle = append(cs3.Oracle, "Go panic: "+run3.pan)
+			} else {
+				cs3.Oracle = switchOracle(&cs3, run3)
+			}
+			cs3.Line = line
+			stats["switch-flipped"]++
+			cases = append(cases, cs3)
+			sb.WriteString(line + "\n")
+		}
 
 		// the same scenario with the debug tracer off (model: debug = false, same recorded scripts)
 		if rr.Intn(3) == 0 {
